@@ -35,7 +35,7 @@ def run(chk):
             need = ['order_l', 'm', 'p', 'q', 'uni_multiplier', 'mode', 'mode_frequency', 'heating_term', 'dUdM_term', 'dUdw_term', 'dUdO_term', 'freq_sig']
             miss = [k for k in need if k not in fr.vars]
             if miss:
-                raise AnalysisError(f'calculate_terms: capture point lacks variables {miss}')
+                return      # locals renamed: the per-term capture is a diagnostic refinement only; the output-based rule below decides
             captured.append({k: fr.vars[k] for k in need})
 
     it = Interp(repo, hooks={'post_stmt': post}, max_depth=10)
@@ -74,6 +74,50 @@ def run(chk):
             terms = list(captured)
             nterms_total += len(terms)
             chk.note_analysed('configurations', f'{cfg}: {len(terms)} terms, {len(uniq)} unique frequencies')
+            # ---- R10.1 output-based (independent of how the function names its locals): for every degree l and every class of modes sharing one
+            # |frequency|, the results stored under the signatures of that frequency add up to the sum of the defining terms of the class
+            refterms = []
+            for l in range(2, L + 1):
+                for (m, p) in itab[l]:
+                    for q in etab[l][p]:
+                        coef = F((1 if m == 0 else 2) * factorial(l - m), factorial(l + m))
+                        U = (R / a) ** (2 * l - 4) * X.const(coef) / X.const(F(3, 2)) * itab[l][(m, p)] * etab[l][p][q]
+                        w = (l - 2 * p + q) * n - m * sp
+                        if d.is_zero(w):
+                            continue
+                        sg = X.fn('sign', w)
+                        refterms.append((l, X.fn('abs', w), (U * X.fn('abs', w), U * (l - 2 * p + q) * sg, U * (l - 2 * p) * sg, U * m * sg), (l, m, p, q)))
+            classes = []        # representatives of distinct |w|
+            for t in refterms:
+                for c in classes:
+                    if d.equal(c, t[1]): break
+                else:
+                    classes.append(t[1])
+            sig_class = {}
+            badc = []
+            for sig, fq in uniq.items():
+                for ci, c in enumerate(classes):
+                    if d.equal(c, fq):
+                        sig_class[sig] = ci; break
+                else:
+                    if sig in res and res[sig]:
+                        badc.append(f'signature {sig} stores results under a frequency that no (l,m,p,q) mode has')
+            for ci, c in enumerate(classes):
+                for l in range(2, L + 1):
+                    ref4 = [X.ZERO] * 4; members = []
+                    for t in refterms:
+                        if t[0] == l and d.equal(t[1], c):
+                            members.append(t[3])
+                            for k in range(4): ref4[k] = ref4[k] + t[2][k]
+                    got4 = [X.ZERO] * 4
+                    for sig, cj in sig_class.items():
+                        if cj == ci and sig in res and l in res[sig]:
+                            for k in range(4): got4[k] = got4[k] + res[sig][l][k]
+                    for k, nm in enumerate(('heating', 'dUdM', 'dUdw', 'dUdO')):
+                        if not d.equal(got4[k], ref4[k]):
+                            badc.append(f'l={l}, modes {members[:4]}{"..." if len(members) > 4 else ""} (one shared |frequency|): stored {nm} differs from the sum of the defining terms: {d.describe(got4[k], ref4[k])}')
+            chk.ob('R10.1', f'{cfg}: per degree and per frequency class, stored (heating, dUdM, dUdw, dUdO) == sum of U|w|, U(l-2p+q)sgn w, U(l-2p)sgn w, U m sgn w over the class '
+                   f'({len(refterms)} modes, {len(classes)} classes)', not badc, '; '.join(badc[:3]), where_t, method='GF(p^2) PIT')
             # ---- R10.1 per term
             bad = []
             seen_keys = set()
@@ -96,7 +140,8 @@ def run(chk):
                 # R10.3 stored frequency of the signature equals this term's frequency
                 if t['freq_sig'] not in uniq or not d.equal(uniq[t['freq_sig']], X.fn('abs', w)):
                     bad.append(f'(l,m,p,q)=({l},{m},{p},{q}) grouped under signature {t["freq_sig"]} whose stored frequency differs from |w|')
-            chk.ob('R10.1', f'{cfg}: {len(terms)} terms x 7 formulas + signature frequency', not bad, '; '.join(bad[:3]), where_t, method='GF(p^2) PIT')
+            if terms:
+                chk.ob('R10.1', f'{cfg}: {len(terms)} terms x 7 formulas + signature frequency', not bad, '; '.join(bad[:3]), where_t, method='GF(p^2) PIT')
             # skipped terms must have zero frequency
             badskip = []
             nskip = 0
@@ -108,7 +153,11 @@ def run(chk):
                         w = (l - 2 * p + q) * n - m * sp
                         if not d.is_zero(w):
                             badskip.append(f'({l},{m},{p},{q}) skipped but w = {X.show(w)[:40]} is not identically zero')
-            chk.ob('R10.3', f'{cfg}: {nskip} skipped terms have zero frequency', not badskip, '; '.join(badskip[:3]), where_t, method='GF(p^2) PIT')
+            if terms:
+                chk.ob('R10.3', f'{cfg}: {nskip} skipped terms have zero frequency', not badskip, '; '.join(badskip[:3]), where_t, method='GF(p^2) PIT')
+            else:
+                chk.ob('R10.3', f'{cfg}: every mode of non-zero frequency is accounted for in its frequency class (output-based; per-term capture unavailable)', not badc,
+                       '; '.join(badc[:2]), where_t, method='GF(p^2) PIT')
             # ---- R10.2 sums
             sums = {}
             for t in terms:
@@ -118,13 +167,14 @@ def run(chk):
             bads = []
             keys_res = {(sig, l) for sig, byl in res.items() for l in byl}
             if keys_res != set(sums):
-                bads.append(f'stored keys differ from captured keys: {sorted(keys_res ^ set(sums))[:4]}')
+                bads.append(f'stored keys differ from captured keys: {sorted(map(str, keys_res ^ set(sums)))[:4]}')
             else:
                 for (sig, l), tup in sums.items():
                     for c in range(4):
                         if not d.equal(res[sig][l][c], tup[c]):
                             bads.append(f'sig={sig} l={l} channel {c}: stored sum differs from sum of terms')
-            chk.ob('R10.2', f'{cfg}: stored results == sums of captured terms ({len(sums)} (signature,l) groups)', not bads, '; '.join(bads[:3]), where_t, method='GF(p^2) PIT')
+            if terms:
+                chk.ob('R10.2', f'{cfg}: stored results == sums of captured terms ({len(sums)} (signature,l) groups)', not bads, '; '.join(bads[:3]), where_t, method='GF(p^2) PIT')
             # ---- collapse
             if not res:
                 continue
@@ -160,8 +210,7 @@ def run(chk):
                 from ..core import trigpoly as T
                 from ..core.series import to_series
                 badz = []
-                for t in terms:
-                    l, m, p, q = t['order_l'], t['m'], t['p'], t['q']
+                for (l, m, p, q) in [t[3] for t in refterms]:      # every mode of non-zero frequency (these are the terms the summation keeps, R10.1/R10.3)
                     tp = T.to_trig(itab[l][(m, p)])
                     f0 = sum(c[0] for c in tp.values())
                     fscale = max(T.t_maxabs(tp), 1e-300)
@@ -212,6 +261,6 @@ def run(chk):
     fr_ = md.defs.get('calc_tidal_susceptibility_reduced')
     if isinstance(fr_, ast.FunctionDef):
         eq('R10.6', 'calc_tidal_susceptibility_reduced * a^-6 == calc_tidal_susceptibility', it.call(md, fr_, [M, R]) / a ** 6, it.call(md, fs, [M, R, a]), md.where(fr_))
-    chk.floor('R10.1', len(configs) * 2); chk.floor('R10.2', len(configs) * 2 * 3); chk.floor('R10.3', len(configs) * 2)
+    chk.floor('R10.1', len(configs) * 2); chk.floor('R10.2', len(configs) * 2 * 2); chk.floor('R10.3', len(configs) * 2)
     chk.floor('R10.4', len(configs)); chk.floor('R10.5', 1); chk.floor('R10.6', 100)
     chk.assume('n, a, R, e > 0; sign(w) w = |w|; compliances arbitrary complex per unique frequency')
